@@ -473,12 +473,14 @@ pub fn run(seed: u64, n: usize, sink: &mut Sink) {
                 input: json!({"consist_yaml": serde_yaml::to_string(&con).unwrap_or_default(), "days": days}),
                 oracle_fail: fails, known: vec![], in_domain: true });
         }
-        if let Some(s) = &sim.lim { if fleet.len() < 12 { fleet.push(s.clone()); } }
+        if let Some(s) = &sim.lim { if fleet.len() < 16 { fleet.push(s.clone()); } }
         t += 1;
     }
     // fleet level (SpeedLimitTrainSimVec): every trip output of a set of simulations is the IN-ORDER sum of its members' own
     // outputs - members annualised with their own simulation_days, and the sum bit-identical whatever the worker count
-    for (j, chunk) in fleet.chunks(4).enumerate() {
+    let mut groups: Vec<&[SpeedLimitTrainSim]> = fleet.chunks(4).collect();
+    groups.push(&fleet[..]); if fleet.len() > 7 { groups.push(&fleet[..7]); groups.push(&fleet[2..]); }
+    for (j, chunk) in groups.into_iter().enumerate() {
         if chunk.len() < 2 { continue; }
         let v = SpeedLimitTrainSimVec(chunk.to_vec());
         let mut fails = vec![];
